@@ -1612,6 +1612,7 @@ func TestC33(t *testing.T) {
 		}
 	}
 	r.Count("structured_cases_available", int64(len(all)))
+	skeCutSlots := 0
 	rgSel := Sub("C33select", 0)
 	nStruct := mon.Pick(40000, 600000)
 	var sel []planned
@@ -1633,9 +1634,39 @@ func TestC33(t *testing.T) {
 			sel = append(sel, all[i])
 		}
 	}
+	// always included: the ServerKeyExchange cut at EVERY offset of its first 170 bytes (curve
+	// parameters, public point, signature algorithm, signature length - each boundary once),
+	// with the handshake header corrected, for a handful of (target, scenario) slots
+	{
+		done := 0
+		for _, sl := range slots {
+			if done >= mon.Pick(8, 80) {
+				break
+			}
+			for i, mt := range sl.types {
+				if mt != 12 {
+					continue
+				}
+				done++
+				for k := 0; k <= 170; k++ {
+					k := k
+					sel = append(sel, planned{sl, c33Case{tg: sl.tg, sc: sl.sc, msgIndex: i, mutName: fmt.Sprintf("ske_cut_at_%03d", k), seed: k,
+						mutate: func(rg *rand.Rand, m []byte) []byte {
+							if 4+k >= len(m) {
+								return m
+							}
+							return hsMsg(m[0], m[4:4+k])
+						}}, mt})
+				}
+				skeCutSlots++
+			}
+		}
+	}
 	for i := range sel {
 		sel[i].cs.id = fmt.Sprintf("%s|%s|msg%d(type %d)|%s|%d", sel[i].sl.tg.Name, sel[i].sl.sc.name, sel[i].cs.msgIndex, sel[i].mt, sel[i].cs.mutName, sel[i].cs.seed)
 	}
+	r.Count("server_key_exchange_messages_cut_at_every_offset", int64(skeCutSlots))
+	r.Floor("server_key_exchange_messages_cut_at_every_offset", 4)
 
 	evaluate := func(slotName string, id string, res c33Result, sig map[string]string, bytesIn int) (class string) {
 		rep := map[string]any{"case": id, "client_err": fmt.Sprint(res.clientErr), "read_err": fmt.Sprint(res.readErr), "phase": res.phase}
